@@ -123,7 +123,7 @@ PROP = dict(
     bin="c18",
     run_targets=["Run/RunC18.vo"],
     prop_targets=["Properties/C18.vo"],
-    cases=dict(quick=1500, thorough=8000),
+    cases=dict(quick=1500, thorough=12000),
     level="proof",
     release_too=True,
     rule="meshes drawn from 12 families (random elements over a small node pool, conforming 2-D quad/triangle grids, non-conforming 2-D grids with hanging nodes, conforming 3-D "
@@ -163,6 +163,6 @@ MANIFEST = dict(
          "implementation (CSR triple exactly, pools 1..16) and a checker proved equivalent to the definition judges every implementation output.",
     design_ref="DESIGN.md §7 C18",
     note="Trusted: Coq kernel; model<->code tie = translator (element tables, filter clauses, threshold comparison) + differential runs "
-         "(1.5k/12k meshes incl. a release-profile run); unsafe pointer writes modelled as functional updates. No axioms.",
+         "(1.5k / 12k debug + 6k release-profile meshes); unsafe pointer writes modelled as functional updates. No axioms.",
     technique="Coq proof (invariants over the block scan and the node index) + translator + model/implementation correspondence + certified checker",
 )
